@@ -1,7 +1,9 @@
 package engine
 
 import (
+	"fmt"
 	"go/token"
+	"os"
 	"go/types"
 
 	"govc/smt"
@@ -230,6 +232,9 @@ func (e *Exec) havocLoc(st *State, key string, a *smt.Term, pos token.Pos) {
 // havocAll forgets every heap (unknown callee).
 func (e *Exec) havocAll(st *State, why string, pos token.Pos) {
 	e.approx++
+	if os.Getenv("GOVC_DEBUG_HAVOC") != "" {
+		fmt.Fprintf(os.Stderr, "havoc-all: %s at %s\n", why, e.W.Fset.Position(pos))
+	}
 	if e.disc != nil {
 		e.disc.all = true
 	}
@@ -270,7 +275,7 @@ func (e *Exec) havocAll(st *State, why string, pos token.Pos) {
 	}
 	// ghost counters are observable effects too: an unknown callee may have bumped any of them
 	for k := range e.ghostNames {
-		st.Ghost["G|"+k] = e.fresh("g."+k, BV64)
+		st.Ghost["G|"+k] = e.fresh("g."+k, ghostSort(k))
 		if e.disc != nil {
 			e.disc.ghost["G|"+k] = true
 		}
